@@ -14,7 +14,9 @@ PROPERTY = "C11"
 LEVEL = "fault_enumeration"
 RULE = ("families wb/axil/axi: seeded interconnect (Timeout alone or shared interconnect 1-2 masters x 1-2 slaves, timeout t in "
         "1..16), literal master histories incl. unmapped addresses, one slave going silent at a literal cycle (optionally "
-        "coming back), slave latencies around t (late_resp). Families wb_sweep/axil_sweep enumerate the silence instant over "
+        "coming back), slave latencies around t (late_resp). Family soc: the same histories through the interconnect that "
+        "litex.soc.integration.soc builds - SoCBusHandler(timeout=t).finalize() with a SoCController, or a whole SoCMini(bus_timeout=t) - "
+        "where additionally every cycle of the error indication must be counted by the controller's bus_errors register. Families wb_sweep/axil_sweep enumerate the silence instant over "
         "EVERY cycle of a fixed short scenario for several t (crash-point enumeration). waittimer: enumerated wait patterns. "
         "Non-trivial = at least one forced (timeout) termination AND at least one ordinary answer in the same run; distinct = "
         "distinct event-log digest")
@@ -24,11 +26,13 @@ ASSUMPTIONS = [
     "either the real answer or the error value is accepted",
     "bound on the wait: (k+1)*(t+4)+4 cycles, k = terminations of other masters meanwhile; lower bound t cycles",
     "AXI(-Lite): masters keep bready/rready high; a slave dies only with nothing accepted-but-unanswered (that case never "
-    "times out: listed known finding C11-F2); crossbars ignore timeout_cycles (listed known finding C11-F1)",
+    "times out: listed known finding C11-F2); crossbars ignore timeout_cycles (listed known finding C11-F1); a SoCBusHandler with one "
+    "master and one slave at origin 0 is a point-to-point link without timeout (listed known finding C11-F4)",
 ]
 COMPONENTS = {"real": ["litex.soc.interconnect.wishbone.Timeout/InterconnectShared/Crossbar",
                        "litex.soc.interconnect.axi.axi_lite.AXILiteTimeout/AXILiteInterconnectShared/AXILiteCrossbar",
                        "litex.soc.interconnect.axi.axi_full.AXITimeout/AXIInterconnectShared/AXICrossbar (single-beat transfers)",
+                       "litex.soc.integration.soc.SoCBusHandler.do_finalize / SoCController / SoC.finalize (family soc: SoCMini with CPUNone)",
                        "litex.gen.genlib.misc.WaitTimer", "litex.gen.sim.core.Simulator"],
               "stub": ["bus master/slave agents with silence fault", "combinational cyc&stb ack gate (harness FHDL)", "clock source"]}
 CHUNK = 4
@@ -41,8 +45,8 @@ ENUMERATED = ('wb_sweep', 'axil_sweep', 'waittimer')       # families whose size
 
 def plan(tier):
     if tier == "quick":
-        return [("wb", 150), ("axil", 100), ("axi", 100), ("wb_sweep", len(SWEEP_T) * SWEEP_LEN), ("axil_sweep", 2 * SWEEP_LEN), ("waittimer", 16)]
-    return [("wb", 8000), ("axil", 5000), ("axi", 5000), ("wb_sweep", len(SWEEP_T) * SWEEP_LEN * 4), ("axil_sweep", len(SWEEP_T) * SWEEP_LEN * 4),
+        return [("wb", 150), ("axil", 100), ("axi", 100), ("soc", 60), ("wb_sweep", len(SWEEP_T) * SWEEP_LEN), ("axil_sweep", 2 * SWEEP_LEN), ("waittimer", 16)]
+    return [("wb", 8000), ("axil", 5000), ("axi", 5000), ("soc", 3000), ("wb_sweep", len(SWEEP_T) * SWEEP_LEN * 4), ("axil_sweep", len(SWEEP_T) * SWEEP_LEN * 4),
             ("waittimer", 64)]
 
 
@@ -124,12 +128,12 @@ def gen_axil(rng, t=None, silent=None, kind=None, nm=None, ns=None):
     return scn
 
 
-def gen_axi(rng):
+def gen_axi(rng, kind=None, nm=None, ns=None):
     """AXI4 (full) shared interconnect / AXITimeout with single-beat transfers; every op has its own address."""
     t = rng.choice([1, 2, 3, 5, 8, 16])
-    kind = rng.choice(["shared", "shared", "timeout_only"])
-    nm = 1 if kind == "timeout_only" else rng.choice([1, 2])
-    ns = 1 if kind == "timeout_only" else rng.choice([1, 2])
+    kind = kind or rng.choice(["shared", "shared", "timeout_only"])
+    nm = nm or (1 if kind == "timeout_only" else rng.choice([1, 2]))
+    ns = ns or (1 if kind == "timeout_only" else rng.choice([1, 2]))
     ops = []
     for m in range(nm):
         lst = []
@@ -159,7 +163,39 @@ def gen_axi(rng):
     return scn
 
 
+def gen_soc(rng):
+    """The same histories through the interconnect that litex.soc.integration.soc builds (SoCBusHandler alone, or a whole SoCMini
+    with its controller's bus error counter)."""
+    std = rng.choice(["wishbone", "axi-lite", "axi"])
+    kind = rng.choice(["soc", "handler"])
+    nm, ns = rng.choice([1, 1, 2]), rng.choice([1, 1, 2])
+    if std == "wishbone":
+        scn = gen_wb(rng, kind="shared", nm=nm, ns=ns)
+    elif std == "axi-lite":
+        scn = gen_axil(rng, kind="shared", nm=nm, ns=ns)
+    else:
+        scn = gen_axi(rng, kind="shared", nm=nm, ns=ns)
+    scn["family"] = "soc"
+    scn["params"].update(kind=kind, std=std)
+    if kind == "handler" and nm == 1 and ns == 1:
+        # one master, one slave, region NOT at origin 0 (at origin 0 SoCBusHandler builds a point-to-point link without any
+        # timeout: listed known finding C11-F4, replayed from its canonical file only)
+        if std == "wishbone":
+            scn["params"]["wins"] = [[0x100, 4]]
+            for o in scn["ops"][0]:
+                if o["adr"] < 0x800:
+                    o["adr"] += 0x100
+        else:
+            scn["params"]["wins"] = [[0x1000, 8]]
+            for o in scn["ops"][0]:
+                if o["addr"] < 0x8000:
+                    o["addr"] += 0x1000
+    return scn
+
+
 def generate_indexed(family, index, rng, tier):
+    if family == "soc":
+        return gen_soc(rng)
     if family == "wb":
         return gen_wb(rng)
     if family == "axil":
@@ -195,18 +231,20 @@ def generate(family, rng, tier, **kw):
         return gen_axil(rng, **kw)
     if family == "axi":
         return gen_axi(rng)
+    if family == "soc":
+        return gen_soc(rng)
     return generate_indexed(family, rng.randrange(64), rng, tier)
 
 
-def wdec(adr, ns):
-    for i, (o, k) in enumerate(WB_WINS[:ns]):
+def wdec(adr, ns, wins=None):
+    for i, (o, k) in enumerate((wins or WB_WINS)[:ns]):
         if (adr >> k) == (o >> k):
             return i
     return None
 
 
-def adec(addr, ns):
-    for i, (o, k) in enumerate(AX_WINS[:ns]):
+def adec(addr, ns, wins=None):
+    for i, (o, k) in enumerate((wins or AX_WINS)[:ns]):
         if (addr >> k) == (o >> k):
             return i
     return None
@@ -227,8 +265,70 @@ class Sampler(Agent):
             self.high.append(t)
 
 
+def via_soc(kind, std, masters, slaves, regions, t, register=False):
+    """The interconnect as litex.soc.integration.soc builds it. kind 'handler': SoCBusHandler(timeout=t) with the masters / slaves /
+    regions added through its API and finalized, plus a SoCController wired the way SoC.finalize() does; kind 'soc': a whole
+    SoCMini(bus_timeout=t, with_ctrl=True) (its CSR bridge is one more slave, moved out of the way to 0xf0000000).
+    Returns (module, timeout error signal or None, bus_errors counter signal)."""
+    import logging
+    logging.disable(logging.CRITICAL)
+    from migen import Module
+    from litex.soc.integration.soc import SoCBusHandler, SoCController, SoCRegion
+    if kind == "handler":
+        top = Module()
+        top.submodules.h = h = SoCBusHandler(standard=std, data_width=32, address_width=32, timeout=t, interconnect="shared",
+                                             interconnect_register=register)
+        for i, mb in enumerate(masters):
+            h.add_master("m%d" % i, master=mb)
+        for i, (sb, (org, size)) in enumerate(zip(slaves, regions)):
+            h.add_slave("s%d" % i, slave=sb, region=SoCRegion(origin=org, size=size))
+        h.finalize()
+        top.submodules.ctrl = ctrl = SoCController()
+        ic = h._interconnect
+        if hasattr(ic, "timeout"):
+            top.comb += ctrl.bus_error.eq(ic.timeout.error)
+    else:
+        from litex.build.generic_platform import GenericPlatform
+        from litex.soc.integration.soc_core import SoCMini
+        top = SoCMini(GenericPlatform("dev", io=[]), clk_freq=int(1e6), bus_standard=std, bus_interconnect="shared", bus_timeout=t,
+                      with_ctrl=True, with_timer=False)
+        top.mem_map["csr"] = 0xf0000000
+        for i, mb in enumerate(masters):
+            top.bus.add_master("m%d" % i, master=mb)
+        for i, (sb, (org, size)) in enumerate(zip(slaves, regions)):
+            top.bus.add_slave("s%d" % i, slave=sb, region=SoCRegion(origin=org, size=size))
+        top.finalize()
+        ctrl = top.ctrl
+        ic = top.bus._interconnect
+    return top, (ic.timeout.error if hasattr(ic, "timeout") else None), ctrl._bus_errors.status
+
+
+def check_error_counter(V, smp, cnt_smp, bench):
+    """SoC level: every cycle of the interconnect's timeout error indication is counted by the controller's bus_errors register."""
+    if cnt_smp is None:
+        return 0
+    n = len(smp.high) if smp is not None else 0
+    got = cnt_smp.last
+    if got != min(n, 2 ** 32 - 1):
+        V("error_not_counted", "ctrl.bus_errors", "the timeout raised its error indication in %d cycles %s, the SoC controller's bus_errors register holds %d"
+          % (n, (smp.high if smp is not None else [])[:10], got))
+    return 1
+
+
+class LastValue(Agent):
+    def __init__(self, sig):
+        self.reads = (sig,)
+        self.sig = sig
+        self.last = 0
+
+    def step(self, v, t, w):
+        self.last = v[self.sig]
+
+
 def run(scn):
     fam = scn["family"]
+    if fam == "soc":
+        return {"wishbone": run_wb, "axi-lite": run_axil, "axi": run_axi}[scn["params"]["std"]](scn)
     if fam in ("wb", "wb_sweep"):
         return run_wb(scn)
     if fam in ("axil", "axil_sweep"):
@@ -244,6 +344,9 @@ def run_wb(scn):
     from litex.soc.integration.soc import SoCRegion
     p = scn["params"]
     nm, ns, t, kind = p["nm"], p["ns"], p["t"], p["kind"]
+    wins = p.get("wins") or WB_WINS
+    cnt_sig = None
+    wdec = lambda a, ns_: globals()["wdec"](a, ns_, wins)  # noqa
     masters = [wishbone.Interface(data_width=32, adr_width=30) for _ in range(nm)]
     ports = [wishbone.Interface(data_width=32, adr_width=30) for _ in range(ns)]      # interconnect side
     agents_bus = [wishbone.Interface(data_width=32, adr_width=30) for _ in range(ns)]  # agent side (ungated ack)
@@ -255,8 +358,11 @@ def run_wb(scn):
         m.comb += masters[0].connect(ports[0])
         m.submodules.timeout = to = wishbone.Timeout(masters[0], t)
         err_sig = to.error
+    elif kind in ("soc", "handler"):
+        inner, err_sig, cnt_sig = via_soc(kind, "wishbone", masters, ports, [(o * 4, (1 << k) * 4) for o, k in wins[:ns]], t, p.get("register", False))
+        m.submodules.inner = inner
     else:
-        preds = [SoCRegion(origin=o * 4, size=(1 << k) * 4).decoder(ports[0]) for o, k in WB_WINS[:ns]]
+        preds = [SoCRegion(origin=o * 4, size=(1 << k) * 4).decoder(ports[0]) for o, k in wins[:ns]]
         cls = wishbone.Crossbar if kind == "crossbar" else wishbone.InterconnectShared
         m.submodules.ic = ic = cls(masters, list(zip(preds, ports)), register=p.get("register", False), timeout_cycles=t)
         err_sig = ic.timeout.error if hasattr(ic, "timeout") else None
@@ -271,6 +377,7 @@ def run_wb(scn):
                      back_at=(f["at"] + f["back_after"]) if f and f.get("back_after") else None)
         sag.append(bench.add(sa))
     smp = bench.add(Sampler(err_sig)) if err_sig is not None else None
+    cnt_smp = bench.add(LastValue(cnt_sig)) if cnt_sig is not None else None
     bench.run()
     viols = []
 
@@ -300,6 +407,9 @@ def run_wb(scn):
         timed = smp is not None and done in smp.high      # error is sampled in the termination cycle
         d = wdec(op["adr"], ns)
         checks += 1
+        if answered and d is None:
+            V("unmapped_reached_slave", "m%d" % mi, "request %r matches no region and was answered by slave %d" % (op, slave_done[(done, op["adr"], op["we"])]), done)
+            continue
         if answered and not timed:
             nreal += 1
             key = (d, op["adr"])
@@ -334,6 +444,7 @@ def run_wb(scn):
             missing = [c for c in forced_cycles if c not in smp.high]
             V("error_pulse", "timeout.error", "error high in cycles %s, forced terminations in cycles %s (extra %s, missing %s)"
               % (smp.high[:8], sorted(forced_cycles)[:8], extra[:4], missing[:4]))
+    checks += check_error_counter(V, smp, cnt_smp, bench)
     stats = {"cycles": bench.cycle["sys"], "checks": checks, "nontrivial": bool(nforced and nreal),
              "faults": {"silent_slave": sum(sa.silenced > 0 for sa in sag), "unmapped_addr": sum(1 for e in evs if wdec(e[2]["adr"], ns) is None),
                         "forced_terminations": nforced,
@@ -349,6 +460,8 @@ def run_axil(scn):
     from litex.soc.integration.soc import SoCRegion
     p = scn["params"]
     nm, ns, t, kind = p["nm"], p["ns"], p["t"], p["kind"]
+    wins = p.get("wins") or AX_WINS
+    cnt_sig = None
     masters = [axi_lite.AXILiteInterface(data_width=32, address_width=32) for _ in range(nm)]
     slaves = [axi_lite.AXILiteInterface(data_width=32, address_width=32) for _ in range(ns)]
 
@@ -359,14 +472,17 @@ def run_axil(scn):
         m.comb += masters[0].connect(slaves[0])
         m.submodules.timeout = to = axi_lite.AXILiteTimeout(masters[0], t)
         err_sig = to.error
+    elif kind in ("soc", "handler"):
+        inner, err_sig, cnt_sig = via_soc(kind, "axi-lite", masters, slaves, [(o, 1 << k) for o, k in wins[:ns]], t)
+        m.submodules.inner = inner
     else:
-        preds = [SoCRegion(origin=o, size=1 << k).decoder(FB) for o, k in AX_WINS[:ns]]
+        preds = [SoCRegion(origin=o, size=1 << k).decoder(FB) for o, k in wins[:ns]]
         cls = axi_lite.AXILiteCrossbar if kind == "crossbar" else axi_lite.AXILiteInterconnectShared
         m.submodules.ic = ic = cls(masters, list(zip(preds, slaves)), timeout_cycles=t)
         err_sig = ic.timeout.error if hasattr(ic, "timeout") else None
     nops = sum(len(o) for o in scn["ops"])
     bench = Bench(wrap_top(m), max_cycles=nops * (t + 16) + 300, tail=8, fingerprint=False)
-    dec = lambda a: adec(a, ns)  # noqa
+    dec = lambda a: adec(a, ns, wins)  # noqa
     mag = [bench.add(AXILMaster(mb, scn["ops"][i], name="m%d" % i, max_out=1, single_target=dec, w_lead=(1 if p.get("w_first") else 0)))
            for i, mb in enumerate(masters)]
     sag = []
@@ -379,6 +495,7 @@ def run_axil(scn):
             sa.silent_mid_request = True
         sag.append(bench.add(sa))
     smp = bench.add(Sampler(err_sig)) if err_sig is not None else None
+    cnt_smp = bench.add(LastValue(cnt_sig)) if cnt_sig is not None else None
     bench.run()
     viols = []
 
@@ -437,6 +554,7 @@ def run_axil(scn):
         n = len(smp.high)
         if n > nforced or n < (nforced + 1) // 2:
             V("error_pulse", "timeout.error", "error high in %d cycles %s for %d forced (SLVERR) responses" % (n, smp.high[:10], nforced))
+    checks += check_error_counter(V, smp, cnt_smp, bench)
     stats = {"cycles": bench.cycle["sys"], "checks": checks, "nontrivial": bool(nforced and nreal),
              "faults": dict(bench.fault_counts, forced_terminations=nforced,
                             unmapped_addr=sum(1 for ma in mag for o in ma.writes + ma.reads_ if dec(o["addr"]) is None)),
@@ -451,6 +569,8 @@ def run_axi(scn):
     from dsim.axi_agents import AXIMaster, AXISlave
     p = scn["params"]
     nm, ns, t, kind = p["nm"], p["ns"], p["t"], p["kind"]
+    wins = p.get("wins") or AX_WINS
+    cnt_sig = None
     masters = [axi_full.AXIInterface(data_width=32, address_width=32) for _ in range(nm)]
     slaves = [axi_full.AXIInterface(data_width=32, address_width=32) for _ in range(ns)]
 
@@ -461,14 +581,17 @@ def run_axi(scn):
         m.comb += masters[0].connect(slaves[0])
         m.submodules.timeout = to = axi_full.AXITimeout(masters[0], t)
         err_sig = to.error
+    elif kind in ("soc", "handler"):
+        inner, err_sig, cnt_sig = via_soc(kind, "axi", masters, slaves, [(o, 1 << k) for o, k in wins[:ns]], t)
+        m.submodules.inner = inner
     else:
-        preds = [SoCRegion(origin=o, size=1 << k).decoder(FB) for o, k in AX_WINS[:ns]]
+        preds = [SoCRegion(origin=o, size=1 << k).decoder(FB) for o, k in wins[:ns]]
         cls = axi_full.AXICrossbar if kind == "crossbar" else axi_full.AXIInterconnectShared
         m.submodules.ic = ic = cls(masters, list(zip(preds, slaves)), timeout_cycles=t)
         err_sig = ic.timeout.error if hasattr(ic, "timeout") else None
     nops = sum(len(o) for o in scn["ops"])
     bench = Bench(wrap_top(m), max_cycles=nops * (t + 16) + 300, tail=8, fingerprint=False)
-    dec = lambda a: adec(a, ns)  # noqa
+    dec = lambda a: adec(a, ns, wins)  # noqa
     ibyte = lambda si: (lambda a: ((si + 1) * 37 + a * 7) & 0xff)  # noqa
     mag = [bench.add(AXIMaster(mb, scn["ops"][i], name="m%d" % i, max_out=1)) for i, mb in enumerate(masters)]
     sag = []
@@ -479,6 +602,7 @@ def run_axi(scn):
                                       init=ibyte(i), silent_from=f["at"] if f else None)))
         sag[-1].silent_between = bool(f and f.get("between_aw_w"))
     smp = bench.add(Sampler(err_sig)) if err_sig is not None else None
+    cnt_smp = bench.add(LastValue(cnt_sig)) if cnt_sig is not None else None
     bench.run()
     viols = []
 
@@ -535,6 +659,7 @@ def run_axi(scn):
         n = len(smp.high)
         if n > nforced or n < (nforced + 1) // 2:
             V("error_pulse", "timeout.error", "error high in %d cycles %s for %d forced (SLVERR) responses" % (n, smp.high[:10], nforced))
+    checks += check_error_counter(V, smp, cnt_smp, bench)
     stats = {"cycles": bench.cycle["sys"], "checks": checks, "nontrivial": bool(nforced and nreal),
              "faults": dict(bench.fault_counts, forced_terminations=nforced,
                             unmapped_addr=sum(1 for ma in mag for o in ma.writes + ma.reads_ if dec(o["addr"]) is None)),
@@ -584,6 +709,9 @@ def known_match(scn, v):
     p = scn.get("params", {})
     if p.get("w_first"):
         return "C11-F3"
+    if scn.get("family") == "soc" and p.get("kind") == "handler" and p["nm"] == 1 and p["ns"] == 1 and not p.get("wins") \
+            and v["cls"] in ("bus_hung", "unmapped_reached_slave"):
+        return "C11-F4"
     if p.get("kind") == "crossbar" and v["cls"] == "bus_hung":
         fam = scn.get("family", "wb")
         return "C11-F1" if fam.startswith("wb") else ("C11-F1c" if fam == "axi" else "C11-F1b")
